@@ -130,6 +130,19 @@ fn run(ctx: &mut Ctx) {
             refix_payload(&mut x);
             differential(ctx, &x, "non-zero padding");
         }
+        // several padding bytes non-zero at once (patterns that cancel under xor / sum)
+        if n - 4 - (20 + plen) >= 2 {
+            for pat in [[0xFFu8, 0xFF, 0xFF], [1, 1, 0], [1, 2, 3], [0x80, 0x80, 0], [0, 7, 7], [255, 1, 0]] {
+                let mut x = b.clone();
+                for (j, k) in (20 + plen..n - 4).enumerate() {
+                    x[k] = pat[j];
+                }
+                if x != b {
+                    refix_payload(&mut x);
+                    differential(ctx, &x, "non-zero padding (several bytes)");
+                }
+            }
+        }
         // unknown device id (one byte off) with re-fixed CRC
         for k in 0..4 {
             let mut x = b.clone();
